@@ -50,7 +50,14 @@ def gen_ua(rng, dist):
         p = ms(keys); c = []
     else:  # delta1: one item's count differs by exactly one around a boundary
         k = keys[0]; m = rng.choice([1, 2, 254, 255, 256, 257]); p = [k] * m; c = [k] * (m + rng.choice([-1, 1]))
-    b = ms(rng.sample(range(0, 40), rng.randint(0, 6)), big=rng.random() < 0.2) if rng.random() < 0.8 else list(p)
+    r = rng.random()
+    if r < 0.45: b = ms(rng.sample(range(0, 40), rng.randint(0, 6)), big=rng.random() < 0.2)            # unrelated
+    elif r < 0.6: b = list(p)
+    elif r < 0.65: b = []
+    else:            # overlaps the diff's items with FEWER or MORE copies than the diff assumes, plus strangers (one of them possibly > 255 times)
+        b = [x for x in p if rng.random() < 0.5] + [x for x in c if rng.random() < 0.2] + [x for x in p if rng.random() < 0.15]
+        if rng.random() < 0.3: b += [rng.randrange(5000, 5010)] * rng.choice([1, 2, 255, 256, 300])
+        rng.shuffle(b)
     if max(Counter(p + c).values(), default=0) >= 255: hit('ua_mult_ge_255')
     return p, c, b
 
@@ -100,7 +107,15 @@ def gen_mf(rng, dist):
         p, c = ([], mp(keys)) if rng.random() < 0.5 else (mp(keys), [])
     else:   # duplicate keys (not a map: correspondence only, no oracle)
         p = [(rng.randrange(4), rng.randrange(2)) for _ in range(rng.randint(1, 7))]; c = [(rng.randrange(4), rng.randrange(2)) for _ in range(rng.randint(0, 7))]
-    b = mp(rng.sample(range(30), rng.randint(0, 6))) if rng.random() < 0.8 else list(p)
+    r = rng.random()
+    if r < 0.45: b = mp(rng.sample(range(30), rng.randint(0, 6)))
+    elif r < 0.6: b = list(p)
+    elif r < 0.65: b = []
+    else:            # shares some keys with previous / current (with other values), lacks others, has strangers
+        seen, b = set(), []
+        for k, v in [x for x in p if rng.random() < 0.5] + [x for x in c if rng.random() < 0.3] + mp(rng.sample(range(7000, 7020), rng.randint(0, 3))):
+            if k not in seen: seen.add(k); b.append((k, v + rng.choice([0, 0, 50])))
+        rng.shuffle(b)
     return ko, p, c, b, cls == 'dupkeys'
 
 def mf_line(i, ko, p, c, b, dup):
